@@ -88,7 +88,7 @@ def run_e1(prop, tier, seed, technique, plan, monitor, quick_budget, thorough_bu
         done_keys = set()
         t_bind = time.time()
         for scn, k, _ in _weighted(plan):
-            key = (scn.parse_key(), scn.shared, json.dumps(scn.own, sort_keys=True))
+            key = json.dumps([scn.parse_key(), [list(i) for i in scn.shared], {k: [list(i) for i in v] for k, v in scn.own.items()}], sort_keys=True)
             if key in done_keys or time.time() - t_bind > (25 if tier == "quick" else 120):
                 continue
             done_keys.add(key)
